@@ -11,6 +11,8 @@ import MW.Lemmas.PersistCrash
 import MW.Lemmas.Deepen3Keys
 import MW.Model.Import
 import MW.Model.Remove
+import MW.Lemmas.RemoveStep
+import MW.Lemmas.Deepen3Frame
 namespace MW.Lemmas.Deepen3
 open MW MW.Model.Ledger MW.Model.Persist MW.Spec.Persist MW.Lemmas.PersistOp MW.Lemmas.PersistFault
   MW.Lemmas.PersistCrash
@@ -516,5 +518,312 @@ theorem removeStep_retry (limit nR : Nat) (env : Model.Persist.Env) (w : Wid) (a
   · rw [h]
   · rw [h]
     exact removeStep_reloaded limit nR env w addrs P V r hr hk hnw hna o ho hfin
+
+
+-- ------------------------------------------------------------------ a crash after ANY number of iterations
+
+/-- a removal iteration that succeeds WITHOUT finishing leaves keystore, key cache, wallet status, height table
+    and synced-to as they were (C08's `removeRelevantTx_spec`: the id-keyed buckets are untouched) -/
+theorem removeStep_nonfinish_frame (limit nR : Nat) (env : Model.Persist.Env) (w : Wid) (addrs : List Addr) (P : PStore)
+    (V : PVol) (r c : KsRec) (hr : AMap.get P.ks w = some r) (hk : AMap.get V.keys w = some c)
+    (hok : ((opRemoveStep limit nR env w addrs).run none P V).ok = true)
+    (hnd : removeDone ((opRemoveStep limit nR env w addrs).run none P V).P w = false) :
+    ((opRemoveStep limit nR env w addrs).run none P V).P.ks = P.ks ∧
+    ((opRemoveStep limit nR env w addrs).run none P V).V.keys = V.keys ∧
+    ((opRemoveStep limit nR env w addrs).run none P V).P.led.status = P.led.status ∧
+    ((opRemoveStep limit nR env w addrs).run none P V).P.led.sync = P.led.sync ∧
+    ((opRemoveStep limit nR env w addrs).run none P V).P.led.syncedTo = P.led.syncedTo := by
+  rw [removeStep_none limit nR env w addrs P V r c hr hk] at hok hnd ⊢
+  cases hs : Model.Remove.removeStep limit (ctxOf env V) w addrs P.led with
+  | none => rw [hs] at hok; cases hok
+  | some o =>
+    rw [hs] at hok hnd
+    simp only at hok hnd ⊢
+    unfold Model.Remove.removeStep at hs
+    cases hrr : Model.Remove.removeRelevantTx limit (ctxOf env V) P.led addrs with
+    | none => rw [hrr] at hs; cases hs
+    | some o1 =>
+      rw [hrr] at hs
+      simp only at hs
+      by_cases hf1 : o1.finish = true
+      · -- finishing: the status entry is erased, so the loop would have stopped
+        rw [if_pos hf1] at hs
+        cases hs
+        simp only [hf1, if_true] at hnd
+        unfold removeDone at hnd
+        simp [AMap.get_erase] at hnd
+      · rw [if_neg hf1] at hs
+        cases hs
+        simp only [hf1, Bool.false_eq_true, if_false]
+        have hne : addrs ≠ [] := by
+          intro he
+          subst he
+          unfold Model.Remove.removeRelevantTx at hrr
+          simp at hrr
+          rw [← hrr] at hf1
+          exact hf1 rfl
+        have hcore := (MW.Lemmas.RemoveStep.removeRelevantTx_spec limit (ctxOf env V) P.led addrs o hne hrr).ids
+        unfold MW.Lemmas.RemoveStep.core at hcore
+        simp only [Prod.mk.injEq] at hcore
+        exact ⟨trivial, trivial, hcore.2.2.2.2.2.1, hcore.2.2.2.2.2.2.1, hcore.2.2.2.2.2.2.2⟩
+
+theorem removePrefix_frame (limit nR : Nat) (env : Model.Persist.Env) (w : Wid) (addrs : List Addr) :
+    ∀ (k : Nat) (P Pk : PStore) (V Vk : PVol) (r c : KsRec), AMap.get P.ks w = some r → AMap.get V.keys w = some c →
+    removePrefix limit nR env w addrs k P V = some (Pk, Vk) →
+    Pk.ks = P.ks ∧ Vk.keys = V.keys ∧ Pk.led.status = P.led.status ∧ Pk.led.sync = P.led.sync ∧
+    Pk.led.syncedTo = P.led.syncedTo := by
+  intro k
+  induction k with
+  | zero =>
+    intro P Pk V Vk r c _ _ h
+    simp only [removePrefix, Option.some.injEq, Prod.mk.injEq] at h
+    rw [← h.1, ← h.2]; exact ⟨rfl, rfl, rfl, rfl, rfl⟩
+  | succ k ih =>
+    intro P Pk V Vk r c hr hk h
+    unfold removePrefix at h
+    simp only at h
+    split at h
+    · cases h
+    · rename_i hc
+      simp only [Bool.or_eq_true, Bool.not_eq_true', not_or, Bool.not_eq_false, Bool.not_eq_true] at hc
+      obtain ⟨f1, f2, f3, f4, f5⟩ := removeStep_nonfinish_frame limit nR env w addrs P V r c hr hk hc.1 hc.2
+      obtain ⟨g1, g2, g3, g4, g5⟩ := ih _ Pk _ Vk r c (by rw [f1]; exact hr) (by rw [f2]; exact hk) h
+      exact ⟨g1.trans f1, g2.trans f2, g3.trans f3, g4.trans f4, g5.trans f5⟩
+
+/-- REMOVAL_RESUMES, from the start of the task: a removal that started at a quiet point (node not moving
+    meanwhile) is interrupted by a crash after ANY number `k` of iterations. The state it had reached is again a
+    quiet point; the uninterrupted removal from the start = those `k` iterations, then the rest; the crash
+    re-queues the task, and the resumed removal ends — for every number `m` of remaining iterations — with exactly
+    the store the uninterrupted removal `removeLoop (k + m)` ends with. -/
+theorem removal_resumes_anywhere (limit nR n : Nat) (env : Model.Persist.Env) (w : Wid) (P0 : PStore) (V0 : PVol)
+    (stt : WStatus) (r : KsRec) (hk : V0.keys = P0.ks) (hr : AMap.get P0.ks w = some r)
+    (hq : env.node.tipHeight = P0.led.syncedTo) (ht : tipOnB env P0 = true)
+    (hst : (w, stt) ∈ P0.led.status) (hrm : stt.removed = true)
+    (k : Nat) (Pk : PStore) (Vk : PVol)
+    (hpre : removePrefix limit nR env w (addrsOf V0.keys w) k P0 V0 = some (Pk, Vk)) :
+    (Model.Persist.crash env n Pk).ok = true ∧ (Model.Persist.crash env n Pk).P = Pk ∧
+    Task.rem w ∈ (Model.Persist.crash env n Pk).V.tasks ∧
+    ∀ m, (removeLoop limit nR env w (addrsOf (Model.Persist.crash env n Pk).V.keys w) m Pk
+            (Model.Persist.crash env n Pk).V).map (·.1) =
+         (removeLoop limit nR env w (addrsOf V0.keys w) (k + m) P0 V0).map (·.1) := by
+  obtain ⟨f1, f2, f3, f4, f5⟩ := removePrefix_frame limit nR env w _ k P0 Pk V0 Vk r r hr (by rw [hk]; exact hr) hpre
+  have hkk : Vk.keys = Pk.ks := by rw [f1, f2]; exact hk
+  have hqk : env.node.tipHeight = Pk.led.syncedTo := by rw [f5]; exact hq
+  have htk : tipOnB env Pk = true := by unfold tipOnB at ht ⊢; rw [f4, f5]; exact ht
+  obtain ⟨a, b, c, d, e⟩ := removal_resumes_same limit nR n env w Pk Vk stt hkk hqk htk (by rw [f3]; exact hst) hrm
+  refine ⟨a, b, c, fun m => ?_⟩
+  rw [e m, removeLoop_split limit nR env w _ k m P0 Pk V0 Vk hpre, f2]
+
+
+-- ------------------------------------------------------------------ a crash after ANY number of import batches
+
+theorem sp_spendOne (tr : TxRec) (blk : BlockMeta) (sb sb' : Store × Bals) (rel : Rel)
+    (h : spendOne tr blk sb rel = .ok sb') : sp sb'.1 = sp sb.1 := by
+  unfold spendOne at h
+  repeat' (split at h)
+  all_goals first
+    | (cases h; done)
+    | (cases h; rfl)
+
+theorem sp_creditOne (p : Params) (tr : TxRec) (blk : BlockMeta) (sb sb' : Store × Bals) (rel : Rel)
+    (h : creditOne p tr blk sb rel = .ok sb') : sp sb'.1 = sp sb.1 := by
+  unfold creditOne at h
+  split at h
+  · cases h
+  · cases h; rfl
+
+theorem sp_addCredits (p : Params) (s s' : Store) (bals bals' : Bals) (tr : TxRec) (blk : BlockMeta)
+    (h : addCredits p s bals tr blk = .ok (s', bals')) : sp s' = sp s := by
+  unfold addCredits at h
+  split at h
+  · cases h; rfl
+  · simp only [bind, Except.bind, pure, Except.pure] at h
+    split at h
+    · cases h
+    · rename_i r hr
+      cases h
+      have h1 : sp r.1 = sp s :=
+        foldlM_frame (creditOne p tr blk) (fun (a : Store × Bals) => sp a.1) (fun b a b' hb => sp_creditOne p tr blk b b' a hb) _ _ _ hr
+      exact (sp_foldl (gameOne tr blk) (fun _ _ => rfl) _ _).trans h1
+
+theorem sp_addRelevantTxForImporting (p : Params) (own : Own) (s s' : Store) (bals bals' : Bals) (tr : TxRec)
+    (blk : BlockMeta) (h : Model.Import.addRelevantTxForImporting p own s bals tr blk = .ok (s', bals')) :
+    sp s' = sp s := by
+  unfold Model.Import.addRelevantTxForImporting at h
+  simp only [bind, Except.bind] at h
+  split at h
+  · cases h
+  · rename_i r hr
+    obtain ⟨s1, b1⟩ := r
+    have h1 : sp s1 = sp s := by
+      unfold Model.Import.insertMinedTxForImporting at hr
+      split at hr
+      · cases hr
+      · rename_i s0 hs0
+        have h0 : sp s0 = sp s := by
+          unfold Model.Import.recordForImporting at hs0
+          repeat' (split at hs0)
+          all_goals first
+            | (cases hs0; done)
+            | (cases hs0; rfl)
+        split at hr
+        · cases hr
+        · rename_i sX bX hr2
+          have h2 : sp sX = sp s0 :=
+            foldlM_frame (spendOne tr blk) (fun (a : Store × Bals) => sp a.1) (fun b a b' hb => sp_spendOne tr blk b b' a hb) _
+              (s0, bals) (sX, bX) hr2
+          cases hr
+          exact ((sp_of_mined (MW.Lemmas.Ledger.minedEq_removeDoubleSpends own _ tr)).trans
+            (sp_of_mined (MW.Lemmas.Ledger.minedEq_unpendMined _ tr.tx))).trans (h2.trans h0)
+    dsimp only at h
+    split at h
+    · rename_i r3 hr3
+      simp only [pure, Except.pure] at h
+      cases h
+      exact (sp_addCredits p s1 _ b1 _ tr blk hr3).trans h1
+    · cases h
+
+theorem foldlM_frameE {ε α β γ : Type} (f : β → α → Except ε β) (g : β → γ)
+    (hf : ∀ b a b', f b a = .ok b' → g b' = g b) :
+    ∀ (l : List α) (b b' : β), l.foldlM f b = .ok b' → g b' = g b := by
+  intro l
+  induction l with
+  | nil => intro b b' h; cases h; rfl
+  | cons a l ih =>
+    intro b b' h
+    rw [List.foldlM_cons] at h
+    simp only [bind, Except.bind] at h
+    split at h
+    · cases h
+    · rename_i b1 hb1
+      exact (ih _ _ h).trans (hf _ _ _ hb1)
+
+theorem sp_applyItem (c : Ctx) (w : Wid) (acc acc' : Store × Bals) (it : Model.Import.Item)
+    (h : Model.Import.applyItem c w acc it = .ok acc') : sp acc'.1 = sp acc.1 := by
+  unfold Model.Import.applyItem at h
+  simp only [bind, Except.bind] at h
+  split at h
+  · cases h
+  · split at h
+    · cases h
+    · split at h
+      · rename_i r hr
+        simp only [pure, Except.pure] at h
+        cases h
+        exact sp_addRelevantTxForImporting _ _ _ _ _ _ _ _ hr
+      · cases h
+      · cases h
+
+/-- a successful import batch never writes the height table or synced-to, keeps the `removed` flag of the wallet
+    and leaves every other part of the status a function of the batch head -/
+theorem importStep_frame (batch : Nat) (c : Ctx) (w : Wid) (s s' : Store) (v v' : Vol) (fin : Bool)
+    (h : Model.Import.importStep batch c w s v = .ok (s', v', fin)) :
+    sp s' = sp s ∧ ∃ ws ws', AMap.get s.status w = some ws ∧ AMap.get s'.status w = some ws' ∧ ws'.removed = ws.removed := by
+  unfold Model.Import.importStep at h
+  split at h
+  · cases h
+  · rename_i hd hhd
+    dsimp only at h
+    split at h
+    · cases h
+    · rename_i s1 bals1 hr
+      have h1 : sp s1 = sp s :=
+        foldlM_frameE (Model.Import.applyItem c w) (fun (a : Store × Bals) => sp a.1)
+          (fun b a b' hb => sp_applyItem c w b b' a hb) _ (s, [(w, hd.bal)]) (s1, bals1) hr
+      cases h
+      refine ⟨(show sp (Model.Import.finishBatch w hd s1 bals1) = sp s1 from rfl).trans h1, ?_⟩
+      unfold Model.Import.batchHead at hhd
+      split at hhd
+      · cases hhd
+      · split at hhd
+        · cases hhd
+        · rename_i ws hws
+          split at hhd
+          · cases hhd
+          · split at hhd
+            · cases hhd
+            · cases hhd
+              refine ⟨ws, Model.Import.statusAfter ws (Model.Import.batchStop batch (Model.Import.cursorU64 ws) v.best.height)
+                v.best.height, hws, ?_, rfl⟩
+              unfold Model.Import.finishBatch
+              simp only [AMap.get_put, if_true]
+
+
+/-- a successful import batch leaves keystore, key cache, tip copy, height table and synced-to as they were and
+    keeps the wallet's status entry (with its `removed` flag) -/
+theorem importStep_run_frame (batch n : Nat) (env : Model.Persist.Env) (w : Wid) (P : PStore) (V : PVol)
+    (hok : ((opImportStep batch n env w).run none P V).ok = true) :
+    ((opImportStep batch n env w).run none P V).P.ks = P.ks ∧
+    ((opImportStep batch n env w).run none P V).V.keys = V.keys ∧
+    ((opImportStep batch n env w).run none P V).V.led.best = V.led.best ∧
+    sp ((opImportStep batch n env w).run none P V).P.led = sp P.led ∧
+    ∃ ws ws', AMap.get P.led.status w = some ws ∧
+      AMap.get ((opImportStep batch n env w).run none P V).P.led.status w = some ws' ∧ ws'.removed = ws.removed := by
+  rw [importStep_none] at hok ⊢
+  cases hs : Model.Import.importStep batch (ctxOf env V) w P.led V.led with
+  | error e => rw [hs] at hok; cases hok
+  | ok r =>
+    obtain ⟨s', v', fin⟩ := r
+    obtain ⟨f1, f2⟩ := importStep_frame batch _ w _ _ _ _ _ hs
+    exact ⟨rfl, rfl, importStep_best _ _ _ _ _ _ _ _ hs, f1, f2⟩
+
+theorem importPrefix_frame (batch n : Nat) (env : Model.Persist.Env) (w : Wid) :
+    ∀ (k : Nat) (P Pk : PStore) (V Vk : PVol) (ws : WStatus), AMap.get P.led.status w = some ws →
+    importPrefix batch n env w k P V = some (Pk, Vk) →
+    Pk.ks = P.ks ∧ Vk.keys = V.keys ∧ Vk.led.best = V.led.best ∧ sp Pk.led = sp P.led ∧
+    ∃ ws', AMap.get Pk.led.status w = some ws' ∧ ws'.removed = ws.removed := by
+  intro k
+  induction k with
+  | zero =>
+    intro P Pk V Vk ws hws h
+    simp only [importPrefix, Option.some.injEq, Prod.mk.injEq] at h
+    rw [← h.1, ← h.2]; exact ⟨rfl, rfl, rfl, rfl, ws, hws, rfl⟩
+  | succ k ih =>
+    intro P Pk V Vk ws hws h
+    unfold importPrefix at h
+    simp only at h
+    split at h
+    · cases h
+    · rename_i hc
+      simp only [Bool.or_eq_true, Bool.not_eq_true', not_or, Bool.not_eq_false, Bool.not_eq_true] at hc
+      obtain ⟨f1, f2, f3, f4, ws0, ws1, g0, g1, g2⟩ := importStep_run_frame batch n env w P V hc.1
+      rw [hws] at g0
+      cases g0
+      obtain ⟨i1, i2, i3, i4, ws2, j1, j2⟩ := ih _ Pk _ Vk ws1 g1 h
+      exact ⟨i1.trans f1, i2.trans f2, i3.trans f3, i4.trans f4, ws2, j1, j2.trans g2⟩
+
+/-- IMPORT_RESUMES, from the start of the task: a rescan that started at a quiet point (node not moving
+    meanwhile) is interrupted by a crash after ANY number `k` of batches: the crash re-queues the task and the
+    resumed rescan ends — for every number `m` of remaining batches — with exactly the store the uninterrupted
+    rescan `importLoop (k + m)` ends with. -/
+theorem import_resumes_anywhere (batch n : Nat) (env : Model.Persist.Env) (w : Wid) (P0 : PStore) (V0 : PVol)
+    (ws : WStatus) (hb : BestInv P0 V0) (hk : V0.keys = P0.ks) (hq : env.node.tipHeight = P0.led.syncedTo)
+    (ht : tipOnB env P0 = true) (hws : AMap.get P0.led.status w = some ws) (hrm : ws.removed = false)
+    (k : Nat) (Pk : PStore) (Vk : PVol) (hpre : importPrefix batch n env w k P0 V0 = some (Pk, Vk))
+    (hnd : importDone Pk w = false) :
+    (Model.Persist.crash env n Pk).ok = true ∧ (Model.Persist.crash env n Pk).P = Pk ∧
+    Task.imp w ∈ (Model.Persist.crash env n Pk).V.tasks ∧
+    ∀ m, (importLoop batch n env w m Pk (Model.Persist.crash env n Pk).V).map (·.1) =
+         (importLoop batch n env w (k + m) P0 V0).map (·.1) := by
+  obtain ⟨f1, f2, f3, f4, ws', g1, g2⟩ := importPrefix_frame batch n env w k P0 Pk V0 Vk ws hws hpre
+  have hsync : Pk.led.sync = P0.led.sync := congrArg Prod.fst f4
+  have hsto : Pk.led.syncedTo = P0.led.syncedTo := congrArg Prod.snd f4
+  have hbk : BestInv Pk Vk := by
+    unfold BestInv at hb ⊢
+    rw [f3, hsync, hsto]; exact hb
+  have hkk : Vk.keys = Pk.ks := by rw [f1, f2]; exact hk
+  have hqk : env.node.tipHeight = Pk.led.syncedTo := by rw [hsto]; exact hq
+  have htk : tipOnB env Pk = true := by unfold tipOnB at ht ⊢; rw [hsync, hsto]; exact ht
+  have hi : ws'.synced.isSome = true := by
+    unfold importDone at hnd
+    rw [g1] at hnd
+    simp only at hnd
+    cases hsy : ws'.synced with
+    | none => rw [hsy] at hnd; simp at hnd
+    | some x => rfl
+  obtain ⟨a, b, c, d⟩ := import_resumes_same batch n env w Pk Vk ws' hbk hkk hqk htk (amap_mem_of_get g1)
+    (g2.trans hrm) hi
+  refine ⟨a, b, c, fun m => ?_⟩
+  rw [d m, importLoop_split batch n env w k m P0 Pk V0 Vk hpre]
 
 end MW.Lemmas.Deepen3
